@@ -75,10 +75,18 @@ Definition r_step (c : rcfg) (s : rcache) (o : op) : rcache * rv :=
   | Copy => (s, RItems s)
   | Len => (s, RNat (length s))
   | Contains k => (s, RBool (match r_lookup s k with Some _ => true | None => false end))
+  | Snapshot _ => (s, RExn KeyError)     (* relational: see r_accepts *)
+  end.
+
+Fixpoint strictly_sorted (l : list (K * V)) : bool :=
+  match l with
+  | a :: ((b :: _) as r) => Nat.ltb (fst a) (fst b) && strictly_sorted r
+  | _ => true
   end.
 
 (* may operation o, run on s, return r?  If so, the state afterwards.
-   popitem may remove and return ANY present item. *)
+   popitem may remove and return ANY present item; a snapshot returns exactly the items present
+   (the harness presents them sorted by key). *)
 Definition r_accepts (c : rcfg) (s : rcache) (o : op) (r : rv) : option rcache :=
   match o, s, r with
   | PopItem, _ :: _, RItem k v =>
@@ -87,6 +95,8 @@ Definition r_accepts (c : rcfg) (s : rcache) (o : op) (r : rv) : option rcache :
       | None => None
       end
   | PopItem, _ :: _, _ => None
+  | Snapshot _, _, RItems l => if strictly_sorted l && same_items s l then Some s else None
+  | Snapshot _, _, _ => None
   | _, _, _ => let '(s', r') := r_step c s o in if rv_eqb r r' then Some s' else None
   end.
 
@@ -146,11 +156,6 @@ Record outcome := mkOutcome {
 Definition expected_probe (c : rcfg) (s : rcache) : list (list K) :=
   repeat [] (r_max c - length s) ++ map (fun p => [fst p]) s.
 
-Fixpoint strictly_sorted (l : list (K * V)) : bool :=
-  match l with
-  | a :: ((b :: _) as r) => Nat.ltb (fst a) (fst b) && strictly_sorted r
-  | _ => true
-  end.
 
 Definition final_ok (c : rcfg) (o : outcome) (s : rcache) : bool :=
   strictly_sorted (o_items o) && same_items s (o_items o) &&
